@@ -28,6 +28,7 @@ violates (a third one, markdown's `NaN%` for a file or a report without lines, w
 -/
 import GrcovModel.Lemmas.Stats
 import GrcovModel.Props.C13Docs
+import GrcovModel.Props.C13Md
 namespace Grcov.Props.C13
 open Grcov AList Grcov.Stats
 
